@@ -376,6 +376,7 @@ func ruleR7() *Rule {
 			r7Drops(c)
 			r7bSticky(c)
 			r7cSiblings(c)
+			r7dNoRecovery(c)
 		},
 	}
 }
@@ -923,4 +924,100 @@ func r7cSiblings(c *RuleCtx) {
 	for _, mn := range []string{"Persist", "Merge"} {
 		c.add(statusOf(total[mn] >= 1), "siblings/caller/"+mn+"/sites", "-", "an interface call site of section."+mn+" is found (confirmed by hand: 1, on the build / merge path)", "no section."+mn+" call found", props, nil)
 	}
+}
+
+// r7dNoRecovery (R7d ENGINE-FAILURE-SURFACES, C19): on the build and merge paths a failure reported by
+// the vector engine is not recovered from — where the error of an engine call is tested, every way on
+// from the "non-nil" side ends in a return of a non-nil error. (C19 asks that the failure surfaces as an
+// error of the build or merge; carrying on with a substitute index hides it.)
+func r7dNoRecovery(c *RuleCtx) {
+	p := c.p
+	if !p.Cfg.Vectors {
+		return
+	}
+	props := []string{"C19"}
+	scope := map[*ssa.Function]bool{}
+	for _, m := range []string{"Persist", "Merge"} {
+		if f := p.Method("faissVectorIndexSection", m); f != nil {
+			for g := range p.reachableFrom(f) {
+				if p.InZap(g) {
+					scope[g] = true
+				}
+			}
+			scope[f] = true
+		}
+	}
+	var fns []*ssa.Function
+	for f := range scope {
+		fns = append(fns, f)
+	}
+	sort.Slice(fns, func(i, j int) bool { return fns[i].String() < fns[j].String() })
+	n := 0
+	counts := map[string]int{}
+	for _, fn := range fns {
+		for _, cs := range callSites(fn) {
+			isEngine := false
+			if f := staticCallee(cs); f != nil && f.Pkg != nil && f.Pkg.Pkg.Path() == faissModule {
+				isEngine = true
+			}
+			if _, _, ok := faissMethod(cs); ok {
+				isEngine = true
+			}
+			if cs.Common().IsInvoke() {
+				if pk := cs.Common().Method.Pkg(); pk != nil && pk.Path() == faissModule {
+					isEngine = true
+				}
+			}
+			if !isEngine {
+				continue
+			}
+			e := errValueOfCall(cs)
+			if e == nil {
+				continue
+			}
+			// where is it tested?
+			var bad []string
+			tested := 0
+			for _, b := range fn.Blocks {
+				iff, ok := b.Instrs[len(b.Instrs)-1].(*ssa.If)
+				if !ok {
+					continue
+				}
+				x, nilWhen, ok := errNilTest(iff.Cond)
+				if !ok || !(sameValue(x, e) || sameValue(resolveLoad(x), e)) {
+					continue
+				}
+				tested++
+				nn := b.Succs[0]
+				if nilWhen {
+					nn = b.Succs[1]
+				}
+				reach := forwardReach(nn)
+				for _, ret := range returnsOf(fn) {
+					if !reach[ret.Block()] {
+						continue
+					}
+					if _, ns := errorOfReturn(ret); ns != nonNil {
+						// a return that the failing side can only reach by going round a loop again is a
+						// later iteration's business only if the failing side cannot fall through at all
+						bad = append(bad, "from the failing side of "+describeInstr(p, iff)+" a return that may report success is reachable: "+describeInstr(p, ret))
+						break
+					}
+				}
+			}
+			if tested == 0 {
+				continue // returned as it is, or dropped: R7's business
+			}
+			n++
+			nm := calleeName(cs)
+			counts[funcShortName(fn)+nm]++
+			key := fmt.Sprintf("no-recovery/%s->%s", funcShortName(fn), strings.ReplaceAll(nm, faissModule+".", ""))
+			if k := counts[funcShortName(fn)+nm]; k > 1 {
+				key += fmt.Sprintf("#%d", k)
+			}
+			c.add(statusOf(len(bad) == 0), key, c.pos(cs), "a failure of this vector-engine call on the build / merge path ends in an error return (nothing carries on after it)",
+				"the build or merge can go on, and report success, after the engine reported a failure here", props, bad)
+		}
+	}
+	c.add(statusOf(n >= 4), "no-recovery/sites", "-", "tested vector-engine calls on the build / merge path are found (pinned tree: 10)", fmt.Sprintf("found %d", n), props, nil)
 }
